@@ -28,7 +28,7 @@ ASSUMPTIONS = [
 ]
 VALID = {1, 2, 3, 4, 9}
 wide = st.floats(allow_nan=False, allow_infinity=False, width=64)
-C01_CARRIERS = ["f64", "f64", "list_none", "list_nan", "masked_nan", "masked_junk", "masked_mixed", "masked_int", "object", "series"]
+C01_CARRIERS = ["f64", "f64", "list_none", "list_nan", "masked_nan", "masked_junk", "masked_mixed", "masked_int", "masked_fill", "object", "series"]
 
 
 @st.composite
